@@ -8,7 +8,7 @@
 (*   rc   : exit status; 1000 + signal when killed by a signal; -1 = still alive when the bound expired    *)
 (* Tier 1: CleanExit / Terminates of Shutdown.tla on the process observables.                              *)
 (* Tier 2: the lifecycle hook log must be a run of Shutdown.tla's thread operators ("drift" otherwise).    *)
-EXTENDS ShutdownOps, Json, IOUtils
+EXTENDS ShutdownOps, Json, IOUtils, FiniteSets
 
 Rec == ndJsonDeserialize(IOEnv.TRACE)
 VARIABLES l, bad
@@ -54,7 +54,7 @@ DevsOf(r) == {r.devs[k] : k \in 1..Len(r.devs)}
 (* the debug thread leaves no life event when it panics; stderr says that it did (r.others) *)
 Died(r) == \E k \in 1..Len(r.others) : r.others[k] # SelectPanic
 Poisoned(r) == \E k \in 1..Len(r.others) : r.others[k] = LaunchUnwrap
-H0(r) == [s |-> S0, ok |-> TRUE, n |-> 0, why |-> "", dev |-> DevsOf(r), died |-> Died(r), poison |-> Poisoned(r)]
+H0(r) == [s |-> S0, ok |-> TRUE, n |-> 0, why |-> "", dev |-> DevsOf(r), died |-> Died(r), poison |-> Poisoned(r), busy |-> (r.state = "busy")]
 Rej(h, n, why) == [h EXCEPT !.ok = FALSE, !.n = n, !.why = why]
 Need(h, n, cond, sn, why) == IF cond THEN [h EXCEPT !.s = sn] ELSE Rej(h, n, why)
 Ev(h, e, n) ==
@@ -80,9 +80,12 @@ Ev(h, e, n) ==
     [] OTHER -> h
 RECURSIVE Fold(_, _, _)
 (* before the first step of the main thread towards the end, a debug thread that is known to have died is dead in the model too *)
+(* ... and a session thread that the driver has sent into a step that never returns (state "busy") is busy in the model too *)
+Busied(h, e) == IF h.busy /\ e.what \in {"shutdown_request", "main_loop_left"} /\ h.s.d = "session"
+                THEN [h EXCEPT !.s = DBusy(h.s), !.busy = FALSE] ELSE h
 Killed(h, e) == IF h.died /\ e.what \in {"shutdown_request", "main_loop_left"} /\ h.s.d \in {"new", "accept", "accepted", "session"}
                 THEN [h EXCEPT !.s = DKill(h.s, h.poison), !.died = FALSE] ELSE h
-Fold(r, h, n) == IF n > Len(r.life) \/ ~h.ok THEN h ELSE Fold(r, Ev(Killed(h, r.life[n]), r.life[n], n), n + 1)
+Fold(r, h, n) == IF n > Len(r.life) \/ ~h.ok THEN h ELSE Fold(r, Ev(Busied(Killed(h, r.life[n]), r.life[n]), r.life[n], n), n + 1)
 Tier2(r) ==
   LET h == Fold(r, H0(r), 1)
       s == h.s
@@ -104,7 +107,21 @@ OtherPanic(r, p) == IF p = PauseLaunchPanic /\ r.state = "launchpause"
                     THEN V(r.id, "deviation", "SignalPanicsDebugThread", "the debug thread panicked when it received the LSP shutdown signal (state " \o r.state \o ", " \o r.mode \o ", " \o r.order \o ")")
                     ELSE V(r.id, "violation", "", "a thread panicked during shutdown: " \o p)
 Others(r) == [k \in 1..Len(r.others) |-> OtherPanic(r, r.others[k])]
-Judge(r) == Tier1(r) \o Others(r) \o Tier2(r)
+(* Shutdown!ThreadEndsUnlessBusy on the hook log: main came back from DebugServer::join (dbg_join_return) - then the debug thread's  *)
+(* last words (dbg_thread_end) must stand before it, unless the session thread was busy inside a step that does not return (state     *)
+(* "busy": the deliberate give-up) or had died earlier (stderr shows its panic). Needs the hooks; nothing is demanded without them.     *)
+Pos(r, w) == IF Has(r, w) THEN CHOOSE k \in 1..Len(r.life) : r.life[k].what = w /\ \A m \in 1..(k - 1) : r.life[m].what # w ELSE 0
+Count(r, w) == Cardinality({k \in 1..Len(r.life) : r.life[k].what = w})
+Zombie(r) ==
+  IF ~Has(r, "dbg_join_return") \/ r.state = "busy" \/ Died(r) THEN <<>>
+  ELSE IF ~Has(r, "dbg_thread_end") \/ Pos(r, "dbg_thread_end") > Pos(r, "dbg_join_return")
+       THEN <<V(r.id, "violation", "", "ThreadEndsUnlessBusy: the process ended while the debug thread was still blocked (no dbg_thread_end before DebugServer::join returned; last life events "
+                \o ToString([k \in 1..(IF Len(r.life) < 4 THEN Len(r.life) ELSE 4) |-> r.life[Len(r.life) - (IF Len(r.life) < 4 THEN Len(r.life) ELSE 4) + k].what])
+                \o ") (state " \o r.state \o ", " \o r.mode \o ", " \o r.order \o ")")>>
+  ELSE IF Count(r, "session_end") < Count(r, "session_new")
+       THEN <<V(r.id, "violation", "", "ThreadEndsUnlessBusy: a debug session was never ended (state " \o r.state \o ", " \o r.mode \o ", " \o r.order \o ")")>>
+  ELSE <<>>
+Judge(r) == Tier1(r) \o Others(r) \o Zombie(r) \o Tier2(r)
 Init == l = 1 /\ bad = <<>>
 Step1 == l <= Len(Rec) /\ bad' = bad \o Judge(Rec[l]) /\ l' = l + 1
 Finish == l = Len(Rec) + 1 /\ ndJsonSerialize(IOEnv.OUT, bad) /\ l' = l + 1 /\ UNCHANGED bad
